@@ -462,7 +462,7 @@ pub fn c09_forced_strategy() -> BoxedStrategy<ConcCase> {
         prop::collection::vec(group, 2..7),
         prop::collection::vec(writer, 3..12),
         0u32..3,
-        (5u32..40, 30u32..90),
+        (5u32..30, 20u32..60),
     )
         .prop_map(|(cfg, groups, writer, nth, (delay, hold))| {
             let mut p0 = vec![];
@@ -491,7 +491,7 @@ pub fn c09_forced_strategy() -> BoxedStrategy<ConcCase> {
     // Close race: the background thread is held after it drained its task buffer until the clients
     // are done, and lingers a little, so that it resumes while the database is being closed with a
     // task that was scheduled in the meantime still unprocessed.
-    let closing = (c09_strategy(), 0u32..8, 20u32..80, 2u32..40).prop_map(|(mut c, nth, max_hold_ms, linger_ms)| {
+    let closing = (c09_strategy(), 0u32..8, 10u32..50, 2u32..30).prop_map(|(mut c, nth, max_hold_ms, linger_ms)| {
         for p in c.programs.iter_mut() {
             p.truncate(25);
         }
@@ -501,7 +501,7 @@ pub fn c09_forced_strategy() -> BoxedStrategy<ConcCase> {
     // Level-0 pile: a preloaded WAL is replayed into a dozen or more level-0 files; the background
     // thread is held inside the first compaction while the clients write, so that writers meet
     // the level-0 stop trigger and have to be woken up correctly when the pile is gone.
-    let pile = (c09_strategy(), 30u16..120, prop::collection::vec((0u32..12, 10u32..50), 1..4)).prop_map(|(mut c, preload, holds)| {
+    let pile = (c09_strategy(), 30u16..120, prop::collection::vec((0u32..12, 8u32..35), 1..4)).prop_map(|(mut c, preload, holds)| {
         c.preload = preload;
         c.cfg.memtable = 512;
         c.directives = holds
@@ -672,14 +672,17 @@ pub fn worker_c09_conc(ctx: &WorkerCtx, res: &RefCell<WorkerResult>) {
     };
     let cases = std::env::var("VERIF_CASES").ok().and_then(|s| s.parse::<u64>().ok()).map(|c| (c * cases / 8000).max(1)).unwrap_or(cases);
     campaign(ctx, "C09", c09_strategy(), cases, 91, true, res);
-    campaign(ctx, "C09", c09_forced_strategy(), cases, 92, true, res);
+    // forced cases spend most of their time in holds: fewer of them
+    campaign(ctx, "C09", c09_forced_strategy(), cases * 3 / 2, 92, true, res);
 }
 
 pub fn replay(v: &Value) -> Result<(), String> {
     let id = v["property"].as_str().unwrap_or("C05").to_string();
     let case: ConcCase = serde_json::from_value(v["case"].clone()).map_err(|e| e.to_string())?;
     // schedules vary: a genuine failure may be intermittent, so the case is repeated
-    for _ in 0..20 {
+    // schedule-dependent cases are repeated; a deterministic hand-written case may ask for fewer repeats
+    let repeats = v["repeats"].as_u64().unwrap_or(20);
+    for _ in 0..repeats {
         let c = case.clone();
         let idc = id.clone();
         match guarded(move || if idc == "C05" { run_c05(&c) } else { run_c09(&c) }) {
